@@ -264,6 +264,13 @@ def h_deal(ctx: Any, code: str, n: int, sym_decisions: int = 2, manual: str = 'c
                     else:
                         m = fixed_mask
                     cards = [(), tuple(h[:1]), tuple(h[-2:]), tuple(h)][m]
+                    if h and all(h.count(c) == 1 for c in h):
+                        # a card he holds only once cannot be discarded twice
+                        dup = (h[0], h[0])
+                        ctx.check(not st.can_stand_pat_or_discard(dup), 'duplicate-discard-accepted', lambda: f'{dup}')
+                        foreign = tuple(c for c in st.deck_cards if c)[:1]
+                        if foreign:
+                            ctx.check(not st.can_stand_pat_or_discard(foreign), 'foreign-discard-accepted')
                     C.call(ctx, st.stand_pat_or_discard, cards)
                 elif st.can_burn_card():
                     C.call(ctx, st.burn_card, '??' if explicit and ctx.flag(f'ub{guard}') else None)
